@@ -102,6 +102,18 @@ class Build:
             self._built[key] = out
         return self._built[key]
 
+    def fuzzer(self, name, extra_srcs=()):
+        """libFuzzer target from /verif/probe/<name>.c"""
+        key = "fuzz:" + name
+        if key not in self._built:
+            out = os.path.join(self.scratch.root, name)
+            fl = ["-O1", "-g", "-w", GUARD, "-I", self.src, "-I", os.path.join(VERIF, "probe"),
+                  "-fsanitize=fuzzer,address,bounds,null,alignment,object-size", "-fno-sanitize-recover=all"]
+            srcs = [os.path.join(VERIF, "probe", name + ".c")] + [os.path.join(self.src, s) for s in extra_srcs]
+            _run(["clang"] + fl + ["-o", out] + srcs, self.src)
+            self._built[key] = out
+        return self._built[key]
+
     def probe_so(self, name, extra_srcs=(), opt="-O1"):
         """Shared-object probe for ctypes (no sanitizer: the ASan twin is the executable)."""
         key = "so:" + name
